@@ -357,6 +357,10 @@ func (in *Interp) prepareCall(fr *Frame, c *ssa.CallCommon) (FuncV, []Value) {
 		}
 		if op, ok := recv.V.(Opaque); ok {
 			// a method of an unmodelled object: the result is opaque too
+			if c.Method.Name() == "Comparable" && op.What == "reflect type" {
+				// context.WithValue's key check: the keys used by the code under test are strings
+				return FuncV{opaqueRes: in.ts.True, isOpaque: true}, nil
+			}
 			return FuncV{opaqueRes: in.opaqueResult(c.Method.Type().(*types.Signature), op.What+"."+c.Method.Name()), isOpaque: true}, nil
 		}
 		m := in.P.Prog.LookupMethod(recv.T, c.Method.Pkg(), c.Method.Name())
@@ -561,6 +565,13 @@ func (in *Interp) load(p Ptr) Value {
 	if p.Base == nil {
 		in.goPanic(in.cur, "nil dereference", "invalid memory address or nil pointer dereference")
 	}
+	if p.Sym != nil {
+		elems := make([]*Term, p.N)
+		for i := range elems {
+			elems[i] = p.Base.V[p.Idx+i].(*Term)
+		}
+		return in.selectChain(elems, p.Sym)
+	}
 	if len(in.poison) > 0 {
 		if g, ok := in.poison[p.Base]; ok {
 			switch p.Base.V[p.Idx].(type) {
@@ -580,6 +591,11 @@ func (in *Interp) store(p Ptr, v Value) {
 	}
 	if len(in.poison) > 0 {
 		delete(in.poison, p.Base)
+	}
+	if p.Sym != nil {
+		c := in.concretize(p.Sym, "store index")
+		storeSlot(p.Base, p.Idx+int(c.C), v)
+		return
 	}
 	storeSlot(p.Base, p.Idx, v)
 }
@@ -700,6 +716,9 @@ func (in *Interp) exec(th *Thread, fr *Frame, instr ssa.Instruction) {
 		p := in.get(fr, ins.X).(Ptr)
 		if p.Base == nil {
 			in.goPanic(th, "nil dereference", "invalid memory address or nil pointer dereference")
+		}
+		if p.Sym != nil {
+			panic(abortf("FieldAddr through a symbolic-index pointer"))
 		}
 		st, ok := p.Base.V[p.Idx].(*Agg)
 		if !ok {
@@ -915,6 +934,10 @@ func (in *Interp) indexAddr(fr *Frame, ins *ssa.IndexAddr) {
 		if s.Arr.opaque() {
 			panic(opaqueUse("byte-level access to numeric string"))
 		}
+		if p, ok := in.symIndexPtr(fr, ins, s.Arr, s.Off, s.Len, kind); ok {
+			in.set(fr, ins, p)
+			return
+		}
 		i := in.boundedIndex(in.get(fr, ins.Index), ins.Index.Type(), s.Len, false, kind)
 		in.set(fr, ins, Ptr{Base: s.Arr, Idx: s.Off + i})
 	case Ptr:
@@ -922,6 +945,10 @@ func (in *Interp) indexAddr(fr *Frame, ins *ssa.IndexAddr) {
 			in.goPanic(in.cur, "nil dereference", "invalid memory address or nil pointer dereference")
 		}
 		arr := s.Base.V[s.Idx].(*Agg)
+		if p, ok := in.symIndexPtr(fr, ins, arr, 0, len(arr.V), kind); ok {
+			in.set(fr, ins, p)
+			return
+		}
 		i := in.boundedIndex(in.get(fr, ins.Index), ins.Index.Type(), len(arr.V), false, kind)
 		in.set(fr, ins, Ptr{Base: arr, Idx: i})
 	default:
@@ -1474,4 +1501,25 @@ func (in *Interp) opaqueResult(sig *types.Signature, what string) Value {
 		tu[i] = mk(res.At(i).Type())
 	}
 	return tu
+}
+
+// symIndexPtr: &a[i] with a symbolic i over scalar elements (n <= 256) becomes a symbolic-index
+// pointer: a later load is an ite-chain instead of a fork per index value.
+func (in *Interp) symIndexPtr(fr *Frame, ins *ssa.IndexAddr, arr *Agg, off, n int, kind string) (Ptr, bool) {
+	it, ok := in.get(fr, ins.Index).(*Term)
+	if !ok || it.IsConst() || n == 0 || n > 256 || arr == nil {
+		return Ptr{}, false
+	}
+	for i := 0; i < n; i++ {
+		if _, isT := arr.V[off+i].(*Term); !isT {
+			return Ptr{}, false
+		}
+	}
+	w := int(it.Sort.W)
+	okT := in.ts.Cmp(OULt, it, in.ts.BVConst(w, uint64(n)))
+	if w < 64 && uint64(n) > mask(uint8(w)) {
+		okT = in.ts.True
+	}
+	in.check(okT, kind)
+	return Ptr{Base: arr, Idx: off, Sym: it, N: n}, true
 }
